@@ -33,7 +33,7 @@ def gen(rng, tier):
     spec = {"chain": chain, "split": rng.randrange(n + 1), "base": rng.choice(["sync", "pool"]),
             "base_name": rng.choice([None, "nm", "nm"]), "fn_kind": rng.choice(["function", "partial", "object"]),
             "flat": rng.random() < 0.3, "fails": rng.choice([0, 0, 1, 2]), "args": [rng.randrange(10) for _ in range(rng.choice([0, 1, 2]))],
-            "settle": 3.0}
+            "settle": 3.0, "fork": rng.random() < 0.4}
     spec["sim"] = runner.draw_sim_cfg(rng, est=500)
     spec["sim"]["horizon_s"] = 5000
     return spec
@@ -106,8 +106,16 @@ def run(spec, env):
         mark = len(sim.threads)
         (fn, calls) = make_fn(side)
         ex = base()
+        bound0 = None
         try:
-            if side == "A":
+            if side == "A0":
+                # reference for the intermediate bound callable: only the layers before bind
+                for L in spec["chain"][:spec["split"]]:
+                    ex = apply(ex, L)
+                if spec["flat"]:
+                    ex = ex.with_flat_map(lambda f: f)
+                f = ex.submit(fn, *spec["args"])
+            elif side == "A":
                 for L in spec["chain"]:
                     ex = apply(ex, L)
                 if spec["flat"]:
@@ -117,12 +125,17 @@ def run(spec, env):
                 for L in spec["chain"][:spec["split"]]:
                     ex = apply(ex, L)
                 bound = ex.flat_bind(fn) if spec["flat"] else ex.bind(fn)
+                bound0 = bound
                 if spec["flat"] and spec["chain"][spec["split"]:]:
                     # flat_bind(fn) == bind(fn).with_flat_map(identity): the flattening layer sits
                     # directly above the bound executor, the rest of the chain above it
                     pass
                 for L in spec["chain"][spec["split"]:]:
                     bound = apply(bound, L)
+                if spec.get("fork"):
+                    # derive a second, unrelated chain from the same intermediate callable:
+                    # customising a bound callable must not alter the callable it started from
+                    other = bound0.with_map(lambda x: ("fork", x))
                 f = bound(*spec["args"])
         except Exception as e:
             env.rec("side-raised", side, type(e).__name__, str(e)[:80])
@@ -136,11 +149,28 @@ def run(spec, env):
         nested = st[0] == "val" and isinstance(st[1], Future)
         env.rec("side", side, [st[0], "<nested future>" if nested else (desc(st[1]) if st[0] == "val" else (desc(getattr(st[1], "tag", None)) if st[0] == "exc" else None))],
                 calls[0], sorted(t.name for t in sim.threads[mark:] if not t.name.startswith("client")))
+        if side == "B" and spec.get("fork") and bound0 is not None:
+            # the intermediate callable, used again after two chains were derived from it
+            before = calls[0]
+            try:
+                f0 = bound0(*spec["args"])
+                try:
+                    f0.result(200.0)
+                except Exception:
+                    pass
+                st0 = fut_state(f0)
+                nested0 = st0[0] == "val" and isinstance(st0[1], Future)
+                env.rec("side", "B0", [st0[0], "<nested future>" if nested0 else (desc(st0[1]) if st0[0] == "val" else (desc(getattr(st0[1], "tag", None)) if st0[0] == "exc" else None))],
+                        calls[0] - before, [])
+            except Exception as e:
+                env.rec("side-raised", "B0", type(e).__name__, str(e)[:80])
 
     # for A the flattening layer is innermost (directly over the executor the callable is bound to):
     # with a split > 0 only the equivalence "flat_bind == bind + with_flat_map(identity)" at the split is claimed
     run_side("A")
     run_side("B")
+    if spec.get("fork"):
+        run_side("A0")
     env.sleep(spec["settle"])
 
 
@@ -151,6 +181,9 @@ def check(spec, env):
     log = sim.log
     out = []
     sides = {e[4]: e for e in log if e[3] == "side"}
+
+    def norm(x):
+        return json.dumps(x).replace('"A0"', '"S"').replace('"B0"', '"S"').replace('"A"', '"S"').replace('"B"', '"S"')
     raised = {e[4]: e for e in log if e[3] == "side-raised"}
     shape = "+".join(L["t"] for L in spec["chain"]) or "-"
     for s, e in raised.items():
@@ -162,8 +195,6 @@ def check(spec, env):
     # flat: with a non-empty tail after the split, A (flatten on top) and B (flatten at the split)
     # differ by construction unless the tail is empty or commutes; compare only the clean cases
     comparable = (not spec["flat"]) or spec["split"] == len(spec["chain"])
-    def norm(x):
-        return json.dumps(x).replace('"A"', '"S"').replace('"B"', '"S"')
     if comparable:
         if norm(a[5]) != norm(b[5]):
             out.append({"oracle": "equivalence", "sig": "bind-outcome-differs|%s" % ("flat" if spec["flat"] else "plain"),
@@ -177,6 +208,18 @@ def check(spec, env):
             if e[5][1] == "<nested future>":
                 out.append({"oracle": "flatten", "sig": "flat-bind-not-flattened|%s" % s,
                             "msg": "side %s: a future returned by the callable was not flattened (result is a nested future); chain %s split %d" % (s, shape, spec["split"])})
+    # an intermediate bound callable keeps behaving like its own executor chain after other
+    # chains were derived from it (the callable's scripted failures have been used up by side B,
+    # so the reference side A0 is compared on its final-attempt outcome shape only when fails == 0)
+    if "B0" in sides and "A0" in sides and spec["fails"] == 0:
+        a0, b0 = sides["A0"], sides["B0"]
+        if norm(a0[5]).replace('"0"', "") != norm(b0[5]).replace('"0"', ""):
+            out.append({"oracle": "equivalence", "sig": "intermediate-bound-callable-altered",
+                        "msg": "after deriving further chains from it, the intermediate bound callable gave %r; the executor with the layers before bind gives %r; chain %s split %d"
+                               % (b0[5], a0[5], shape, spec["split"])})
+        elif b0[6] != a0[6]:
+            out.append({"oracle": "equivalence", "sig": "intermediate-bound-callable-invocations",
+                        "msg": "intermediate bound callable invoked the function %d times, its executor chain %d times" % (b0[6], a0[6])})
     # names
     want = expected_names(spec)
     for (s, e) in (("A", a), ("B", b)):
